@@ -2231,6 +2231,15 @@ func builtinAppend(env *LEnv, args *LVal) *LVal {
 		// content of the issue #373 fix.  elpsvet's alias rule does not
 		// follow the capacity through the helper call, so the proof is
 		// recorded here rather than the rule weakened.
+		if len(vals) == 0 {
+			// With nothing to append, append(clampCap(cells)) hands back the
+			// input slice itself, so the "new" vector shared seq's storage and
+			// sorting it in place reordered seq -- the one arity at which the
+			// documented "never shares storage" did not hold.  Copy instead.
+			fresh := make([]*LVal, len(cells))
+			copy(fresh, cells)
+			return Array(nil, fresh)
+		}
 		//elps:mutates appends into a cap==len reslice (clampCap), which forces a reallocation; seq's backing is unreachable from the result
 		return Array(nil, append(clampCap(cells), vals...))
 	default:
